@@ -32,7 +32,7 @@ INVS = ["OutcomeIsFresh", "IdentOnlyFromRepo", "SharedQuiescent", "RepoSane", "G
         "RepoMonotone", "OthersUntouched"]
 # the small pool of the (M) run: 3 configurations x 4 inputs (per grammar), 2 slots, <= 5 calls
 MC_CFGS = ["ent.memo", "ent.grepo", "imp.classes"]
-MC_INPUTS = {"ent": ["valid", "valid2", "syntax", "unknown"], "imp": ["valid", "noimp", "syntax", "unknown"]}
+MC_INPUTS = {"ent": ["valid", "valid2", "syntax", "unknown"], "imp": ["valid", "impdep", "syntax", "unknown"]}
 # clause -> invariant it must break in the (M) pool (the module is not vacuous)
 DEV_BREAKS = {"NestedLoadFinalizesOuterUnlessCached": "OutcomeIsFresh",
               "ImportedParsersNotRestoredOnFailure": "SharedQuiescent"}
@@ -45,35 +45,51 @@ SLOTS = 3
 
 # ------------------------------------------------------------------ Fresh: new interpreters
 def _fresh_run(job):
-    cfg, inp, mode, workdir = job
+    cfg, inp, mode, world, workdir = job
     env = dict(os.environ)
     env["PYTHONPATH"] = tlc.VERIF + os.pathsep + common.REPO
     env["VT_REPO"] = common.REPO
     env["PYTHONHASHSEED"] = "0"
     env["PYTHONDONTWRITEBYTECODE"] = "1"
-    p = subprocess.run([sys.executable, "-m", "vt.drive.history", "fresh", cfg, inp, mode, workdir],
+    p = subprocess.run([sys.executable, "-m", "vt.drive.history", "fresh", cfg, inp, mode, workdir, world],
                        capture_output=True, text=True, env=env, cwd=tlc.VERIF, timeout=600)
     for ln in p.stdout.splitlines():
         if ln.startswith("FRESH|"):
             out = json.loads(ln[6:])
             if os.path.realpath(out["textx"]) != os.path.realpath(common.REPO):
                 raise tlc.MachineryError(f"fresh interpreter imported textx from {out['textx']}, not {common.REPO}")
-            return (cfg, inp, mode), out
-    raise tlc.MachineryError(f"fresh run {cfg} {inp} {mode} printed no result:\n{p.stdout[-500:]}\n{p.stderr[-1500:]}")
+            return (cfg, inp, mode, world), out
+    raise tlc.MachineryError(f"fresh run {cfg} {inp} {mode} {world} printed no result:\n{p.stdout[-500:]}\n{p.stderr[-1500:]}")
 
 
 def build_fresh(workdir, cfgs, inputs_of):
-    """Every (cfg, input, mode) once in a brand-new interpreter, in parallel."""
-    jobs = [(c, i, m, workdir) for c in cfgs for i in inputs_of(c) for m in ("str", "file")]
+    """Every (cfg, input, mode) once in a brand-new interpreter, in parallel; inputs that import
+    the mutable library file once per content of that file (a second pool directory holds the
+    `bad` content, nothing is written while the fresh interpreters run)."""
+    bad = os.path.join(workdir, "_world_bad")
+    if not os.path.isdir(bad):
+        H.write_pool(bad, world="bad")
+    jobs = []
+    for c in cfgs:
+        g = c.split(".")[0]
+        for i in inputs_of(c):
+            for m in ("str", "file"):
+                jobs.append((c, i, m, "good", workdir))
+                if H.uses_dep(g, i):
+                    jobs.append((c, i, m, "bad", bad))
     with ThreadPoolExecutor(max_workers=tlc.NCPU) as ex:
         res = dict(ex.map(_fresh_run, jobs))
     fresh, freshmm, dumps = {}, {}, {}
-    for (c, i, m), out in res.items():
-        fresh.setdefault(c, {}).setdefault(i, {})[m] = dict(kind=out["load"]["kind"], dig=out["load"]["dig"],
-                                                            libs=out["load"]["libs"])
-        dumps[(c, i, m)] = out["load"]["dump"]
+    for (c, i, m, w), out in res.items():
+        fresh.setdefault(c, {}).setdefault(i, {}).setdefault(m, {})[w] = dict(
+            kind=out["load"]["kind"], dig=out["load"]["dig"], libs=out["load"]["libs"])
+        dumps[(c, i, m, w)] = out["load"]["dump"]
         if freshmm.setdefault(c, out["mm"]["dig"]) != out["mm"]["dig"] or out["mm"]["kind"] != "mm":
             raise tlc.MachineryError(f"metamodel {c} is not built the same way in two new interpreters")
+    for c in fresh:                       # inputs that do not import the mutable file: same in both worlds
+        for i in fresh[c]:
+            for m in fresh[c][i]:
+                fresh[c][i][m].setdefault("bad", fresh[c][i][m]["good"])
     return fresh, freshmm, dumps, len(jobs)
 
 
@@ -89,18 +105,22 @@ def pool_doc(fresh, freshmm, cfgs, inputs, slots, maxops, dev=(), brk=()):
     for c in cfgs:
         twin = c.split(".")[0] + ".plain" if flag[c]["grepo"] else c
         src = fresh.get(twin, fresh[c])
-        alt[c] = {i: dict(kind=src[i]["file"]["kind"], dig=src[i]["file"]["dig"]) for i in inputs[c.split(".")[0]]}
+        alt[c] = {i: dict(kind=src[i]["file"]["good"]["kind"], dig=src[i]["file"]["good"]["dig"])
+                  for i in inputs[c.split(".")[0]]}
     return dict(
         flag=flag,
         inputs={g: list(inputs[g]) for g in gs},
         winputs={g: [i for i in H.WINPUTS[g] if i in inputs[g]] for g in gs},
+        winit={g: H.WINPUTS[g][0] for g in gs},
+        depgrammars=[g for g in gs if g in H.DEP],
+        depname=dict({g: H.DEP[g][0] for g in gs if g in H.DEP}, _="-"),
         fresh={c: {i: fresh[c][i] for i in inputs[c.split(".")[0]]} for c in cfgs},
         freshmm={c: freshmm[c] for c in cfgs},
         alt=alt,
-        nested={g: {i: H.NESTED[g].get(i, []) for i in inputs[g]} for g in gs},
+        nested={g: {i: H.NESTED.get(g, {}).get(i, []) for i in inputs[g]} for g in gs},
         defs={g: {i: H.INPUTS[g][i]["defs"] for i in inputs[g]} for g in gs},
         unres={g: {i: sorted(set(H.INPUTS[g][i]["refs"]) - set(H.INPUTS[g][i]["defs"])) for i in inputs[g]} for g in gs},
-        nimp={g: {i: H.NIMP[g].get(i, 0) for i in inputs[g]} for g in gs},
+        nimp={g: {i: H.NIMP.get(g, {}).get(i, 0) for i in inputs[g]} for g in gs},
         slots=slots, maxops=maxops, dev=sorted(dev), brk=sorted(brk))
 
 
@@ -157,36 +177,80 @@ def _op(name, slot, arg, inp="-"):
     return dict(name=name, slot=slot, arg=arg, inp=inp)
 
 
+def _circuit(nodes):
+    """A sequence over `nodes` in which every ordered pair (a, b) -- a = b included -- occurs
+    as two consecutive elements exactly once (Eulerian circuit of the complete digraph with loops)."""
+    out_edges = {a: list(reversed(nodes)) for a in nodes}
+    stack, seq = [nodes[0]], []
+    while stack:
+        v = stack[-1]
+        if out_edges[v]:
+            stack.append(out_edges[v].pop())
+        else:
+            seq.append(stack.pop())
+    return list(reversed(seq))
+
+
 def scripted():
     """The interleavings DESIGN.md section 6 (C16) calls out, written down explicitly."""
     out = []
-    for g in H.GRAMMARS:
+    gs = list(H.GRAMMARS)
+    for g in gs:
         ins = list(H.INPUTS[g])
-        bad = [i for i in ins if i not in ("valid", "valid2", "noimp")]
-        # a failing load followed by a valid one on the same metamodel; string loads vs file
-        # loads of the same content; for ent / imp the loads are nested in the scope provider
-        for o in H.OPTIONS:
+        opts = H.GOPTIONS[g]
+        # every ordered pair of inputs (a failing load followed by a valid one, a load repeated,
+        # a failing import followed by a reload, one notation / directory after another ...) loaded
+        # consecutively through the same metamodel: from files for every configuration, from strings
+        # for two of them.  For ent / imp / dirs the loads are nested in the scope provider.
+        for o in opts:
+            h = [_op("NewMM", 1, f"{g}.{o}")] + [_op("LoadFile", 1, i) for i in _circuit(ins)]
+            out.append((f"all ordered pairs of file loads {g}.{o}", h))
+        for o in [x for x in ("plain", "classes") if x in opts]:
             h = [_op("NewMM", 1, f"{g}.{o}")]
-            for i in bad:
-                for nm in ("LoadStr", "LoadFile"):
-                    h += [_op(nm, 1, i), _op(nm, 1, "valid")]
-            h += [_op("LoadFile", 1, "valid"), _op("LoadStr", 1, "valid"), _op("LoadFile", 1, ins[1]),
-                  _op("LoadStr", 1, ins[1])]
-            out.append((f"fail-then-valid {g}.{o}", h))
+            for k, i in enumerate(_circuit(ins)):
+                h.append(_op("LoadStr", 1, i))
+                if k % 3 == 2:
+                    h.append(_op("LoadFile", 1, i))      # string loads vs file loads of the same content
+            out.append((f"all ordered pairs of string loads {g}.{o}", h))
         # the metamodel with memoization first, then one without -- and vice versa -- so that
         # textX_parsers and the base-type rule objects are shared
         for first, second in (("memo", "plain"), ("plain", "memo"), ("memo", "classes"), ("procs", "memo")):
+            if first not in opts or second not in opts:
+                continue
             h = [_op("NewMM", 1, f"{g}.{first}"), _op("NewMM", 2, f"{g}.{second}")]
             for i in ins:
                 h += [_op("LoadStr", 1, i), _op("LoadStr", 2, i), _op("LoadFile", 2, i), _op("LoadFile", 1, i)]
             out.append((f"{first}-then-{second} {g}", h))
         # global repository: repeated loads, a rewritten file, drop and re-create
-        h = [_op("NewMM", 1, f"{g}.grepo"), _op("LoadFile", 1, "scratch"), _op("LoadFile", 1, "scratch"),
-             _op("WriteFile", 0, g, "unknown"), _op("LoadFile", 1, "scratch"), _op("NewMM", 2, f"{g}.plain"),
-             _op("LoadFile", 2, "scratch"), _op("LoadFile", 1, "valid"), _op("LoadFile", 1, "valid"),
-             _op("WriteFile", 0, g, "valid"), _op("LoadFile", 2, "scratch"), _op("DropMM", 1, "-"),
-             _op("NewMM", 1, f"{g}.grepo"), _op("LoadFile", 1, "scratch"), _op("LoadFile", 1, "valid")]
-        out.append((f"global-repository {g}", h))
+        if "grepo" in opts:
+            w0, w1 = H.WINPUTS[g]
+            h = [_op("NewMM", 1, f"{g}.grepo"), _op("LoadFile", 1, "scratch"), _op("LoadFile", 1, "scratch"),
+                 _op("WriteFile", 0, g, w1), _op("LoadFile", 1, "scratch"), _op("NewMM", 2, f"{g}.plain"),
+                 _op("LoadFile", 2, "scratch"), _op("LoadFile", 1, "valid"), _op("LoadFile", 1, "valid"),
+                 _op("WriteFile", 0, g, w0), _op("LoadFile", 2, "scratch"), _op("DropMM", 1, "-"),
+                 _op("NewMM", 1, f"{g}.grepo"), _op("LoadFile", 1, "scratch"), _op("LoadFile", 1, "valid")]
+            out.append((f"global-repository {g}", h))
+        # an imported file is broken: the load fails, is repeated, the file is repaired, the load is
+        # repeated again (and the other way round) -- with and without a global repository
+        if g in H.DEP:
+            dep_ins = [i for i in ins if H.uses_dep(g, i)]
+            for o in opts:
+                h = [_op("NewMM", 1, f"{g}.{o}"), _op("WriteDep", 0, g, "bad")]
+                for i in dep_ins:
+                    h += [_op("LoadFile", 1, i), _op("LoadFile", 1, i), _op("LoadStr", 1, i)]
+                h += [_op("WriteDep", 0, g, "good")]
+                for i in dep_ins:
+                    h += [_op("LoadFile", 1, i), _op("LoadFile", 1, i), _op("LoadStr", 1, i)]
+                h += [_op("LoadFile", 1, "valid"), _op("WriteDep", 0, g, "bad")]
+                for i in dep_ins:
+                    h += [_op("LoadFile", 1, i), _op("LoadStr", 1, i)]
+                h += [_op("DropMM", 1, "-"), _op("NewMM", 1, f"{g}.{o}")]
+                for i in dep_ins:
+                    h += [_op("LoadFile", 1, i), _op("LoadFile", 1, "valid"), _op("LoadFile", 1, i)]
+                h += [_op("WriteDep", 0, g, "good")]
+                for i in dep_ins:
+                    h += [_op("LoadFile", 1, i), _op("LoadFile", 1, i)]
+                out.append((f"imported file broken and repaired {g}.{o}", h))
     # metamodels of different grammars interleaved (the base-type rule objects are shared by all)
     h = [_op("NewMM", 1, "ent.memo"), _op("NewMM", 2, "expr.memo"), _op("NewMM", 3, "imp.memo")]
     for k in range(3):
@@ -203,13 +267,18 @@ def scripted():
     def all_loads(slot, g):
         return [_op(nm, slot, i) for i in H.INPUTS[g] for nm in ("LoadStr", "LoadFile")]
 
-    for k, (g1, g2, g3) in enumerate(itertools.permutations(list(H.GRAMMARS))):
-        for o2, o3 in ((("plain", "icase"), ("icase", "plain"))[k % 2],):
-            h = [_op("NewMM", 1, f"{g1}.plain")] + all_loads(1, g1)
-            h += [_op("NewMM", 2, f"{g2}.{o2}")] + all_loads(1, g1) + all_loads(2, g2)
-            h += [_op("NewMM", 3, f"{g3}.{o3}")] + all_loads(1, g1) + all_loads(2, g2) + all_loads(3, g3)
-            h += [_op("DropMM", 1, "-"), _op("NewMM", 1, f"{g1}.icase")] + all_loads(1, g1) + all_loads(3, g3)
-            out.append((f"grammars interleaved with loads {g1},{g2}.{o2},{g3}.{o3}", h))
+    def opt(g, o):
+        return o if o in H.GOPTIONS[g] else "memo"
+
+    triples = list(itertools.permutations(["ent", "imp", "expr"]))
+    triples += [tuple(gs[(k + d) % len(gs)] for d in (0, 1, 2)) for k in range(len(gs)) if k not in (0,)]
+    for k, (g1, g2, g3) in enumerate(triples):
+        o2, o3 = (("plain", "icase"), ("icase", "plain"))[k % 2]
+        h = [_op("NewMM", 1, f"{g1}.plain")] + all_loads(1, g1)
+        h += [_op("NewMM", 2, f"{g2}.{opt(g2, o2)}")] + all_loads(1, g1) + all_loads(2, g2)
+        h += [_op("NewMM", 3, f"{g3}.{opt(g3, o3)}")] + all_loads(1, g1) + all_loads(2, g2) + all_loads(3, g3)
+        h += [_op("DropMM", 1, "-"), _op("NewMM", 1, f"{g1}.{opt(g1, 'icase')}")] + all_loads(1, g1) + all_loads(3, g3)
+        out.append((f"grammars interleaved with loads {g1},{g2},{g3}", h))
     # the witnesses of the listed findings (reproduced in every run while the defects exist)
     out.append(("nested load with a global repository, repeated",
                 [_op("NewMM", 1, "ent.grepo"), _op("LoadFile", 1, "valid2"), _op("LoadFile", 1, "valid2"),
@@ -217,7 +286,7 @@ def scripted():
     out.append(("failing multi-file load with user classes, then valid loads",
                 [_op("NewMM", 1, "imp.classes"), _op("LoadFile", 1, "unknown"), _op("LoadFile", 1, "valid"),
                  _op("LoadStr", 1, "noimp"), _op("LoadFile", 1, "unknown"), _op("LoadFile", 1, "noimp")]))
-    out.append(("leaked instrumentation levels and later failing loads",
+    out.append(("failing loads with user classes and later failing loads",
                 [_op("NewMM", 1, "imp.plain"), _op("NewMM", 2, "imp.classes"), _op("LoadFile", 2, "unknown"),
                  _op("LoadFile", 2, "syntax"), _op("LoadFile", 2, "unknown"), _op("LoadFile", 2, "unknown"),
                  _op("LoadStr", 2, "syntax"), _op("LoadFile", 2, "impbad"), _op("LoadStr", 2, "valid"),
@@ -229,7 +298,9 @@ def random_histories(rng, count, length):
     """(I->S) longer seeded-random histories (the harness chooses, TLC judges)."""
     out = []
     for _ in range(count):
-        live, scr, h = {}, {g: "valid" for g in H.GRAMMARS}, []
+        live, h = {}, []
+        scr = {g: H.WINPUTS[g][0] for g in H.GRAMMARS}
+        dep = {g: "good" for g in H.DEP}
         favoured = [rng.choice(H.CFGS) for _ in range(2)]
         while len(h) < length:
             free = [s for s in range(1, SLOTS + 1) if s not in live]
@@ -248,6 +319,10 @@ def random_histories(rng, count, length):
                 i = [w for w in H.WINPUTS[g] if w != scr[g]][0]
                 scr[g] = i
                 h.append(_op("WriteFile", 0, g, i))
+            elif x < 0.33 and any(c.split(".")[0] in H.DEP for c in live.values()):
+                g = rng.choice(sorted({c.split(".")[0] for c in live.values()} & set(H.DEP)))
+                dep[g] = "bad" if dep[g] == "good" else "good"
+                h.append(_op("WriteDep", 0, g, dep[g]))
             else:
                 s = rng.choice(sorted(live))
                 g = live[s].split(".")[0]
@@ -284,7 +359,7 @@ def execute(ex, ops):
     return events, dumps
 
 
-CHUNK = 250     # traces per TLC run (single worker each, up to tlc.NCPU runs side by side)
+CHUNK = 60      # traces per TLC run (single worker each, up to tlc.NCPU runs side by side)
 
 
 def validate(work, traces, pool_path, expect=False, tag="t"):
@@ -330,7 +405,7 @@ def expected_of(work, ops_events, pool_path):
 def _brief(events, upto=None):
     out = []
     for e in events[:upto]:
-        a = [e["arg"]] if e["name"] != "WriteFile" else [e["arg"], e["inp"]]
+        a = [e["arg"]] if e["name"] not in ("WriteFile", "WriteDep") else [e["arg"], e["inp"]]
         out.append([e["name"], e["slot"], *a, e["res"]["kind"], e["res"]["ident"]])
     return out
 
@@ -363,7 +438,7 @@ def _shrink(ex, work, events, pool_dev0, pool_all, rounds=8):
                 if o["slot"] not in live:
                     return False
                 live.discard(o["slot"])
-            elif o["name"] != "WriteFile" and o["slot"] not in live:
+            elif o["name"] not in ("WriteFile", "WriteDep") and o["slot"] not in live:
                 return False
         return True
 
@@ -400,20 +475,26 @@ def _shrink(ex, work, events, pool_dev0, pool_all, rounds=8):
 def run(rep):
     quick = rep.tier == "quick"
     rng = random.Random(rep.seed)
-    rep.rule = ("A case is one history (sequence of NewMM / DropMM / WriteFile / LoadStr / LoadFile calls over 3 slots, "
-                "18 configurations = 3 grammars (sharing textually identical regexes and literals in different "
-                "roles) x {plain, memoization, user classes, object processors, global repository, ignore_case}, "
-                "5-6 inputs per grammar) executed in one interpreter; every call's result (digest of the "
+    rep.rule = ("A case is one history (sequence of NewMM / DropMM / WriteFile / WriteDep / LoadStr / LoadFile calls over "
+                f"3 slots, {len(H.CFGS)} configurations = 5 grammars x options out of {{plain, memoization, user classes, "
+                "object processors, global repository, ignore_case}; the grammars share textually identical regexes "
+                "and literals in different roles, two of them have stateful scope providers: string-registered RREL "
+                "providers over match rules with different split parameters, ImportURI with a search path over model "
+                "files in several directories; 5-9 inputs per grammar, one mutable model file and one mutable imported "
+                "file per grammar directory) executed in one interpreter; every call's result (digest of the "
                 "structural dump of the model or of the projected error, identity of the returned model) and the "
                 "projected shared state after it must be a behaviour of History.tla whose expected results are the "
-                "Fresh table. S->I: histories from `tlc -simulate`; I->S: those, the scripted interleavings and "
-                "seeded-random longer ones validated by TLC. Non-trivial: >= 3 loads, at least one of which follows "
-                "an earlier load; distinct by the sequence of calls and results.")
+                "Fresh table. S->I: histories from `tlc -simulate`; I->S: those, the scripted interleavings (every "
+                "ordered pair of inputs loaded consecutively per configuration, broken-then-repaired imports, "
+                "metamodels of different grammars created between loads) and seeded-random longer ones validated by "
+                "TLC. Non-trivial: >= 3 loads; distinct by the sequence of calls and results.")
     rep.assumptions = [
         "Fresh(cfg, input, mode) is produced by the implementation itself: each triple is run once in a brand-new "
         "interpreter (subprocess, same VT_REPO); the check therefore cannot see a defect that is the same in every state",
         "debug=False only (debug=True writes dot files into the working directory); two metamodels sharing user "
         "classes is out of scope",
+        "files are named relative to the grammar directory of the pool; the content of the mutable imported file is "
+        "one of two fixed texts (valid / syntax error), and Fresh is taken per content for the inputs importing it",
         "the shared state is observed by introspection: textx.lang.textX_parsers, _result_cache of every rule object "
         "reachable from the grammar parser / base-type rules / blueprint parsers, fields of mm._parser_blueprint, "
         "_tx_instrumented of the user classes, mm._tx_model_repository.all_models",
@@ -450,7 +531,8 @@ def run(rep):
         for c in fresh:
             for i in fresh[c]:
                 for m in fresh[c][i]:
-                    kinds[fresh[c][i][m]["kind"]] = kinds.get(fresh[c][i][m]["kind"], 0) + 1
+                    k = fresh[c][i][m]["good"]["kind"]
+                    kinds[k] = kinds.get(k, 0) + 1
         rep.extra["fresh_outcome_classes"] = kinds
         for want in ("model", "syntax", "unknown", "proc"):
             if not kinds.get(want):
@@ -597,9 +679,10 @@ def replay(path):
                 print("     expected      :", x.get("res"), _state_brief(x.get("state")))
                 mode = "str" if e["name"] == "LoadStr" else "file"
                 c = next((y["arg"] for y in reversed(ev[:k + 1]) if y["name"] == "NewMM" and y["slot"] == e["slot"]), None)
-                if (c, e["inp"], mode) in fdumps:
+                w = e["state"]["dep"].get((c or "-").split(".")[0], "good")
+                if (c, e["inp"], mode, w) in fdumps:
                     print("     observed dump :", common.canon(dumps[k])[:1500])
-                    print("     fresh dump    :", common.canon(fdumps[(c, e["inp"], mode)])[:1500])
+                    print("     fresh dump    :", common.canon(fdumps[(c, e["inp"], mode, w)])[:1500])
                 break
         print("history reached", got[1]["reached"], "of", got[1]["len"])
         return 0 if got[1]["reached"] == got[1]["len"] else 1
